@@ -4371,7 +4371,25 @@ impl Handler {
         // The executor runs one statement per logical line, so authorization must
         // cover every line of the program, not only a program that happens to parse
         // as a single statement.
-        self.authorize_program_lines(effective_auth, trimmed, current_kg)?;
+        // A statement may act on the explicitly requested graph, on the graph the
+        // session is bound to (session-aware queries run there even when a graph is
+        // given explicitly), or - when neither is given - on the engine's current
+        // graph: it must be permitted on every graph it may act on.
+        let mut auth_targets: Vec<String> = Vec::new();
+        if let Some(kg) = knowledge_graph.as_deref() {
+            auth_targets.push(kg.to_string());
+        }
+        if let Some(kg) = session_id.and_then(|sid| self.sessions.session_kg(sid).ok()) {
+            if !auth_targets.contains(&kg) {
+                auth_targets.push(kg);
+            }
+        }
+        if auth_targets.is_empty() {
+            if let Some(kg) = self.storage.read().current_knowledge_graph() {
+                auth_targets.push(kg.to_string());
+            }
+        }
+        self.authorize_program_lines(effective_auth, trimmed, auth_targets)?;
 
         // Any session-bound activity should keep the session alive.
         // If the session was reaped (e.g., after WS reconnect), log and continue
@@ -4634,17 +4652,18 @@ impl Handler {
     /// continuation lines joined, one statement per non-empty line) and applies the
     /// global-role check, the `_internal` guard and the per-KG role check to each
     /// statement, tracking `.kg use` / `.kg create` switches so that each statement
-    /// is checked against the knowledge graph it will act on. A line that does not
+    /// is checked against every knowledge graph it may act on. A line that does not
     /// parse cannot be authorized: the program is rejected with the same validation
     /// error the executor reports (fail closed).
     fn authorize_program_lines(
         &self,
         identity: Option<&crate::auth::AuthIdentity>,
         program: &str,
-        initial_kg: Option<&str>,
+        initial_targets: Vec<String>,
     ) -> Result<(), String> {
         let program_text = join_continuation_lines(&strip_comments(program));
-        let mut target: Option<String> = initial_kg.map(str::to_string);
+        // Every graph the next statement may act on
+        let mut targets: Vec<String> = initial_targets;
         let mut parse_errors: Vec<ValidationError> = Vec::new();
         let mut stmt_index: usize = 0;
         for (line_num, line) in program_text.lines().enumerate() {
@@ -4654,13 +4673,27 @@ impl Handler {
             }
             match statement::parse_statement(line) {
                 Ok(stmt) => {
-                    self.authorize_one_statement(identity, &stmt, target.as_deref())?;
-                    if let statement::Statement::Meta(
-                        statement::MetaCommand::KgUse(name)
-                        | statement::MetaCommand::KgCreate(name),
-                    ) = &stmt
-                    {
-                        target = Some(name.clone());
+                    // Checked at least once (against no graph when none is known),
+                    // then against every further graph the statement may act on.
+                    let mut remaining = targets.iter();
+                    let first = remaining.next().map(String::as_str);
+                    self.authorize_one_statement(identity, &stmt, first)?;
+                    for target in remaining {
+                        self.authorize_one_statement(identity, &stmt, Some(target.as_str()))?;
+                    }
+                    match &stmt {
+                        // `.kg use X`: the following statements act on X
+                        statement::Statement::Meta(statement::MetaCommand::KgUse(name)) => {
+                            targets = vec![name.clone()];
+                        }
+                        // `.kg create X` switches to X only if the creation succeeds;
+                        // otherwise the program stays on the graph(s) it was on
+                        statement::Statement::Meta(statement::MetaCommand::KgCreate(name)) => {
+                            if !targets.contains(name) {
+                                targets.push(name.clone());
+                            }
+                        }
+                        _ => {}
                     }
                 }
                 Err(e) => parse_errors.push(ValidationError {
